@@ -1592,11 +1592,10 @@ class _SideEffectCache(threading.local):
     self.cache = {}
 
 
-_side_effect_cache = _SideEffectCache()
-
-
-def _restore_rng_counters(scopes, fingerprint, capture_old_counts):
-  if fingerprint not in _side_effect_cache.cache:
+def _restore_rng_counters(
+    side_effect_cache, scopes, fingerprint, capture_old_counts
+):
+  if fingerprint not in side_effect_cache.cache:
     capture_new_counts = jax.tree.map(
         lambda s: CountsHolder.make(s.rng_counters), scopes
     )
@@ -1605,11 +1604,11 @@ def _restore_rng_counters(scopes, fingerprint, capture_old_counts):
         capture_old_counts,
         capture_new_counts,
     )
-    _side_effect_cache.cache[fingerprint] = capture_delta_counts
+    side_effect_cache.cache[fingerprint] = capture_delta_counts
   else:
     updated_counts = jax.tree.map(
         lambda x, y: x.add(y).unflat(),
-        _side_effect_cache.cache[fingerprint],
+        side_effect_cache.cache[fingerprint],
         capture_old_counts,
     )
     jax.tree.map(
@@ -1684,6 +1683,8 @@ def jit(
   # this is impure but we use the fingerprint arg to differentiate between cases
   # where scope_fn or repack_fn actually produce non-identical results.
   jit_context = TransformContext[tuple[Callable, Callable]]()
+  # the rng counter deltas recorded below belong to this function only
+  side_effect_cache = _SideEffectCache()
 
   @functools.partial(
       jax.jit,
@@ -1729,7 +1730,9 @@ def jit(
           lambda s: CountsHolder.make(s.rng_counters), scopes
       )
       res = jitted(fingerprint, variable_groups, rng_groups, *args, **kwargs)
-      _restore_rng_counters(scopes, fingerprint, capture_old_counts)
+      _restore_rng_counters(
+          side_effect_cache, scopes, fingerprint, capture_old_counts
+      )
       return res
 
   return pack(
@@ -1828,6 +1831,8 @@ def fold_rngs(
   # this is impure but we use the fingerprint arg to differentiate between cases
   # where scope_fn or repack_fn actually produce non-identical results.
   fold_rngs_context = TransformContext[tuple[Callable, Callable]]()
+  # the rng counter deltas recorded below belong to this function only
+  side_effect_cache = _SideEffectCache()
 
   @functools.wraps(fn)
   def wrapped_fold_rngs(fingerprint, variable_groups, rng_groups, *args, **kwargs):
@@ -1867,7 +1872,9 @@ def fold_rngs(
       res = wrapped_fold_rngs(
           fingerprint, variable_groups, rng_groups, *args, **kwargs
       )
-      _restore_rng_counters(scopes, fingerprint, capture_old_counts)
+      _restore_rng_counters(
+          side_effect_cache, scopes, fingerprint, capture_old_counts
+      )
       return res
 
   return pack(
